@@ -66,11 +66,50 @@ def gen_request(rng, case):
     return mode, rm, points
 
 
+TF_WORKER = r"""
+import json, sys, warnings
+warnings.filterwarnings("ignore")
+sys.path.insert(0, sys.argv[1])
+from harness import posecase as pc
+from harness.bodyexec import view_of
+from pose_format import Pose
+for line in sys.stdin:
+    if not line.strip(): continue
+    c = json.loads(line)
+    try:
+        p = pc.build_pose(c["case"])
+        p = Pose(p.header, p.body.tensorflow())
+        r = p.get_components(c["req"], c["points"]) if c["mode"] == "get" else p.remove_components(c["req"], c["points"])
+        out = {"view": view_of(r.body, "tf"), "header": pc.canon_header(r.header)}
+    except Exception as e:
+        out = {"error": type(e).__name__ + ": " + str(e)[:100]}
+    sys.stdout.write(json.dumps(out) + "\n"); sys.stdout.flush()
+"""
+
+
+def run_tf_selection(jobs):
+    import subprocess, sys
+    from .. import core
+    payload = "".join(json.dumps(j) + "\n" for j in jobs)
+    r = subprocess.run([sys.executable, "-W", "ignore", "-c", TF_WORKER, core.VERIF], input=payload, capture_output=True, text=True, timeout=3000, cwd=core.VERIF,
+                       env=dict(os.environ, TF_CPP_MIN_LOG_LEVEL="3", CUDA_VISIBLE_DEVICES=""))
+    outs = [json.loads(l) for l in r.stdout.splitlines() if l.strip()]
+    if r.returncode != 0 or len(outs) != len(jobs):
+        raise core.InfraError("tensorflow worker died (exit %s, %d of %d answers): %s" % (r.returncode, len(outs), len(jobs), r.stderr[-800:]))
+    return outs
+
+
 def run(ctx):
     rng = ctx.rng
+    tf_jobs, tf_meta = [], []
     cases = []
-    for _ in range(ctx.pick(300, 3000)):
+    for it in range(ctx.pick(300, 3000)):
         case = gen_pose(rng)
+        if it < 6:
+            case["body"]["conf"] = [0] * len(case["body"]["conf"])          # planned: nobody detected — every point of every frame and person missing
+        elif rng.random() < 0.15:
+            for _ in range(rng.randint(1, 3)):                              # a NaN / ±inf coordinate (at an observed or a missing point): a value like any other
+                case["body"]["data"][rng.randrange(len(case["body"]["data"]))] = rng.choice([0x7FC00000, 0x7F800000, 0xFF800000])
         cases.append((case,) + gen_request(rng, case))
     reqs = [{"op": "select", "mode": mode, "components": case["header"]["components"], "request": [pc.hx(r) for r in req],
              "points": None if points is None else [[pc.hx(k), [pc.hx(p) for p in v]] for k, v in points.items()]} for case, mode, req, points in cases]
@@ -160,12 +199,21 @@ def run(ctx):
             if what:
                 ctx.violation("a selected point does not carry the values of the source point with that component and name (torch body: result differs from the NumPy body's)", info,
                               {"what": what}, True, signature={"clause": "torch body"}); continue
+        # ---- and on a tensorflow body (child process; a sample of the cases)
+        if b0["frames"] > 0 and b0["people"] > 0 and not extra and len(tf_jobs) < ctx.pick(60, 400) and not any(pc.is_zero_bits(w) and w != 0 for w in case["body"]["conf"]):
+            tf_jobs.append({"case": case, "mode": mode, "req": req, "points": points}); tf_meta.append((info, got["header"], view_of(res.body, "numpy")))
         # ---- correspondence with the model
         if pc.diff(mo["components"], got["header"]["components"]):
             ctx.violation("selection: new header differs from the model's", info, {"d": pc.diff(mo["components"], got["header"]["components"])}, False); continue
         ix = mo["indexes"]
         if len(ix) != N1 or not (np.array_equal(d1, d0[:, :, ix]) and np.array_equal(c1, c0[:, :, ix])):
             ctx.violation("selection: body is not the gather of the model's source indexes", info, {"indexes": ix}, False)
+    for (info, hdr, vn), o in zip(tf_meta, run_tf_selection(tf_jobs) if tf_jobs else []):
+        ctx.count("tensorflow body")
+        what = o.get("error") or ("header" if pc.diff(hdr, o["header"]) else next((k for k in ("shape", "conf", "missing", "zf") if o["view"].get(k) != vn.get(k)), None))
+        if what:
+            ctx.violation("a selected point does not carry the values of the source point with that component and name (tensorflow body: result differs from the NumPy body's)", info,
+                          {"what": what}, True, signature={"clause": "tf body"})
     helpers(ctx)
 
 
